@@ -64,8 +64,8 @@ PROPS = {
         lean_props="Receptor.Props.C09",
         engines=[dict(engine="verify", pkg=NETC, test="TestVerifVerify", n_quick=150, n_thorough=2000),
                  dict(engine="cert", pkg=NETC, test="TestVerifCert", n_quick=20, n_thorough=200)],
-        corr_ops={"verify": ["verify", "verifyseq", "mtls", "verifytime"], "cert": ["issue"]},
-        facts=["rvf_pin_lengths", "rvf_steps", "rvf_usages", "rvf_name_rule", "rvf_name_compare", "tls_client_cfg", "tls_listener_expected", "rvf_closure", "rvf_pin_subject", "tls_server_clientauth", "tls_listener_bind_when"],
+        corr_ops={"verify": ["verify", "verifyseq", "mtls", "verifytime", "verifychain", "clientcfgseq"], "cert": ["issue"]},
+        facts=["rvf_pin_lengths", "rvf_steps", "rvf_usages", "rvf_name_rule", "rvf_name_compare", "tls_client_cfg", "tls_listener_expected", "rvf_closure", "rvf_pin_subject", "tls_server_clientauth", "tls_listener_bind_when", "tls_listener_pins", "tls_client_cfg_clone"],
         trusted=["crypto/x509 (parsing, chain building, validity, key usage, DNS-name verification) and crypto/tls: oracle booleans "
                  "with ground truth known by construction of the certificates",
                  "the TLS handshake itself (that VerifyPeerCertificate is called, that GetConfigForClient is honoured) is exercised by "
@@ -107,7 +107,7 @@ PROPS = {
     ),
     "C15": dict(
         lean_props="Receptor.Props.C15",
-        engines=[dict(engine="sig", pkg="pkg/workceptor", test="TestVerifSig", n_quick=260, n_thorough=1365, shardable=False)],
+        engines=[dict(engine="sig", pkg="pkg/workceptor", test="TestVerifSig", n_quick=260, n_thorough=1960, shardable=False)],
         corr_ops={"sig": ["command", "replay"]},
         facts=["sig_gate", "sig_should", "sig_unix", "sig_arms", "sig_verify", "sig_verify_calls", "sig_type_lookup"],
         trusted=["golang-jwt signature / expiry / audience checks and RSA: oracle with ground truth supplied by the harness that mints "
@@ -119,7 +119,7 @@ PROPS = {
         lean_props="Receptor.Props.C03",
         engines=[dict(engine="stream", pkg=NETC, test="TestVerifStream", n_quick=10, n_thorough=120),
                  dict(engine="unreach", pkg=NETC, test="TestVerifUnreach", n_quick=150, n_thorough=1500)],
-        corr_ops={"stream": ["transfer"], "unreach": ["deliver", "churn"]},
+        corr_ops={"stream": ["transfer"], "unreach": ["deliver", "churn", "localdial"]},
         facts=["bridge_loop", "bridge_conns", "stream_first_byte", "stream_close", "stream_readfrom_copy", "stream_quic_adapter", "stream_link_gone_errors", "unreach_dial_cancel"],
         trusted=["quic-go: reliable, ordered delivery with retransmission over lossy, duplicating, reordering datagram links is the "
                  "library's; it is exercised on every run (1..4 hops, loss up to 8 %, duplication, delays up to 30 ms, a cut of the "
@@ -229,7 +229,7 @@ PROPS = {
         lean_props="Receptor.Props.C16",
         engines=[dict(engine="unreach", pkg=NETC, test="TestVerifUnreach", n_quick=150, n_thorough=1500),
                  dict(engine="pkt", pkg=NETC, test="TestVerifPkt", n_quick=300, n_thorough=3000)],
-        corr_ops={"unreach": ["deliver", "churn"], "pkt": ["handle", "walk"]},
+        corr_ops={"unreach": ["deliver", "churn", "localdial"], "pkt": ["handle", "walk"]},
         facts=["unreach_unknown_branch", "unreach_socket_filter", "unreach_dial_cancel", "unreach_notice_fields", "unreach_sent_from", "unreach_hops"],
         trusted=["utils.Broker delivers every published notice to every subscriber in publication order (modelled as such)",
                  "QUIC handshake time-out (15 s) vs notice latency is measured by the mesh engine, not proved"],
@@ -239,7 +239,7 @@ PROPS = {
         lean_props="Receptor.Props.C18",
         engines=[dict(engine="ads", pkg=NETC, test="TestVerifAds", n_quick=400, n_thorough=4000)],
         corr_ops={"ads": ["run", "owner"]},
-        facts=["ads_keep_test", "ads_tombstone_test", "ads_tombstones", "ads_relay", "ads_stamp"],
+        facts=["ads_keep_test", "ads_tombstone_test", "ads_tombstones", "ads_relay", "ads_stamp", "ads_close_order"],
         trusted=["advertisement times are generator-chosen logical times injected into the messages (no wall clock)",
                  "network-level convergence is proved as order-independence per node (tombstone variant); the periodic re-advertisement "
                  "that heals lost messages is exercised by the mesh engine, not modelled"],
@@ -250,7 +250,7 @@ PROPS = {
         engines=[dict(engine="der", pkg="pkg/utils", test="TestVerifDER", n_quick=400, n_thorough=4000),
                  dict(engine="cert", pkg=NETC, test="TestVerifCert", n_quick=40, n_thorough=400),
                  dict(engine="verify", pkg=NETC, test="TestVerifVerify", n_quick=10, n_thorough=200)],
-        corr_ops={"der": ["san", "names"], "cert": ["issue"], "verify": ["verify", "verifyseq", "mtls", "verifytime"]},
+        corr_ops={"der": ["san", "names"], "cert": ["issue"], "verify": ["verify", "verifyseq", "mtls", "verifytime", "verifychain", "clientcfgseq"]},
         facts=["der_strip", "rvf_closure"],
         trusted=["encoding/asn1 Marshal/Unmarshal for the subset used (modelled byte-exactly, validated by the der engine)",
                  "crypto/x509 copying the SAN extension from request to certificate (exercised by the cert engine, not modelled)"],
